@@ -84,12 +84,17 @@ var (
 
 var uid int64
 
+// synthNil: object arguments are synthesised as nil (used by the probe's "nil-args" variant).
+var synthNil bool
+
 // synth builds an argument of type t. keyPool bounds the key space.
 func synth(t reflect.Type, r *vlib.Rand, keyPool int, recv reflect.Value, depth int) reflect.Value {
 	k := r.Intn(keyPool)
 	switch {
 	case t == tLinkedKey:
 		return reflect.ValueOf(&lk{k}).Convert(t)
+	case t == tEmptyIf && synthNil:
+		return reflect.Zero(t)
 	case t == tEmptyIf:
 		v := fmt.Sprintf("v%d", atomic.AddInt64(&uid, 1))
 		return reflect.ValueOf(&v).Elem().Convert(t)
@@ -252,7 +257,7 @@ func selfDeadlockProbe(c *vlib.Ctx) {
 			continue
 		}
 		typ := reflect.TypeOf(ct.mk())
-		variants := []string{"populated", "empty"}
+		variants := []string{"populated", "empty", "nil-args"}
 		if _, ok := typ.MethodByName("SetMax"); ok {
 			variants = append(variants, "bounded-full")
 		}
@@ -290,6 +295,7 @@ func selfDeadlockProbe(c *vlib.Ctx) {
 				if variant == "bounded-full" {
 					kp = 1 << 20
 				}
+				synthNil = variant == "nil-args"
 				go probeCall(m, r, inst, kp, done)
 				verdict := ""
 				var pan interface{}
@@ -325,10 +331,33 @@ func selfDeadlockProbe(c *vlib.Ctx) {
 				c.Count("methods_probed", 1)
 				c.SetAdd("types_probed", ct.name)
 				c.DistinctStr(id)
+				synthNil = false
 				switch verdict {
 				case "returned":
 					if pan != nil {
 						c.Count("methods_panicked_on_synthetic_args", 1)
+					}
+					// follow-up: the structure's lock must have been released on every path the
+					// call took (early return, panic): a second call must not find it held
+					if sz := inst.MethodByName("Size"); sz.IsValid() && sz.Type().NumIn() == 0 {
+						d2 := make(chan interface{}, 1)
+						go probeCall(sz, r, inst, 4, d2)
+					follow:
+						for _, w := range waits {
+							select {
+							case <-d2:
+								break follow
+							case <-time.After(w):
+								if n, st := parkedProbes(); n > leaked {
+									leaked = n
+									c.Fail(fmt.Sprintf("%s.%s:lock-leaked", strings.SplitN(ct.name, "(", 2)[0], mname),
+										"after the method returned (or panicked) the structure's own lock is still held: the next operation blocks forever",
+										map[string]interface{}{"type": ct.name, "method": mname, "instance": variant, "first_call_panicked": pan != nil, "goroutine": st})
+									break follow
+								}
+							}
+						}
+						c.Count("lock_release_followups", 1)
 					}
 				case "":
 					c.Inconclusive(id, "method did not return within 45 s and is not parked on a mutex")
@@ -555,6 +584,154 @@ func stressOne(c *vlib.Ctx, ct ctype, r *vlib.Rand, label string, goroutines, ke
 	}
 }
 
+// ---- monitor 1b: point operations next to whole-structure operations ---------------------
+//
+// Writers put keys nobody removes while another goroutine keeps calling the whole-structure
+// methods (sort, key-array, contains-value, to-string, enumerator constructors …). Whatever
+// those do internally, an acknowledged put must not vanish and the structure must stay
+// intact: at quiescence every key put is present and Size() equals their number.
+func wholeOpStress(c *vlib.Ctx, ct ctype, r *vlib.Rand, label string, writers, perWriter, gomax int) {
+	old := runtime.GOMAXPROCS(gomax)
+	defer runtime.GOMAXPROCS(old)
+	inst := reflect.ValueOf(ct.mk())
+	put := inst.MethodByName("Put")
+	if !put.IsValid() || put.Type().NumIn() < 1 || put.Type().NumIn() > 2 {
+		return
+	}
+	var contains reflect.Value
+	for _, n := range []string{"ContainsKey", "Contains", "HasKey"} {
+		if m := inst.MethodByName(n); m.IsValid() && m.Type().NumIn() == 1 && m.Type().NumOut() == 1 && m.Type().Out(0).Kind() == reflect.Bool {
+			contains = m
+			break
+		}
+	}
+	if !contains.IsValid() {
+		return
+	}
+	kt := put.Type().In(0)
+	mkKey := func(id int64) (reflect.Value, bool) {
+		switch {
+		case kt == tLinkedKey:
+			return reflect.ValueOf(&lk{int(id)}).Convert(kt), true
+		case kt.Kind() == reflect.String:
+			return reflect.ValueOf(fmt.Sprintf("w%d", id)).Convert(kt), true
+		case kt.Kind() == reflect.Int32 || kt.Kind() == reflect.Int64 || kt.Kind() == reflect.Int:
+			return reflect.ValueOf(id).Convert(kt), true
+		}
+		return reflect.Value{}, false
+	}
+	if _, ok := mkKey(1); !ok {
+		return
+	}
+	// whole-structure methods: everything exported that is not a point operation and whose
+	// arguments can be synthesised; SetMax would bound the structure and is left out
+	var whole []opm
+	typ := inst.Type()
+	for i := 0; i < typ.NumMethod(); i++ {
+		n := typ.Method(i).Name
+		if pointOps[n] || strings.HasPrefix(n, "Set") || strings.HasPrefix(n, "Remove") || n == "ToObject" || n == "PutAll" {
+			continue
+		}
+		whole = append(whole, opm{n, inst.Method(i)})
+	}
+	if len(whole) == 0 {
+		return
+	}
+	var wg sync.WaitGroup
+	var progress int64
+	stop := int32(0)
+	for w := 0; w < writers; w++ {
+		wg.Add(1)
+		w := w
+		wr := r.Fork(fmt.Sprint("writer", w))
+		go stressWorker(&wg, &progress, func(i int) {
+			k, _ := mkKey(int64(w+1)*1000000 + int64(i))
+			args := []reflect.Value{k}
+			if put.Type().NumIn() == 2 {
+				args = append(args, synth(put.Type().In(1), wr, 4, inst, 0))
+			}
+			func() {
+				defer func() { recover() }()
+				put.Call(args)
+			}()
+		}, perWriter)
+	}
+	var bg sync.WaitGroup
+	bg.Add(1)
+	bgr := r.Fork("whole")
+	calls := map[string]int{}
+	go func() {
+		defer bg.Done()
+		for atomic.LoadInt32(&stop) == 0 {
+			op := whole[bgr.Intn(len(whole))]
+			callRecovered(op.m, bgr, 4, inst)
+			calls[op.name]++
+			runtime.Gosched()
+		}
+	}()
+	tname := strings.SplitN(ct.name, "(", 2)[0]
+	verdict, stack := waitOrDeadlock(&wg, &progress, "main.stressWorker")
+	atomic.StoreInt32(&stop, 1)
+	if verdict != "done" {
+		if verdict == "deadlock" {
+			c.Fail(tname+":deadlock-under-concurrency", "writers are parked on the structure's own mutex while a whole-structure operation runs: the run can never finish",
+				map[string]interface{}{"type": ct.name, "goroutine": stack, "whole_ops": fmt.Sprint(calls)})
+		} else {
+			c.Inconclusive(label, "writers made no progress for 5 minutes but are not parked on a mutex")
+		}
+		return
+	}
+	bgDone := make(chan struct{})
+	go func() { bg.Wait(); close(bgDone) }()
+	select {
+	case <-bgDone:
+	case <-time.After(120 * time.Second):
+		c.Inconclusive(label, "whole-structure caller did not return within 120 s")
+		return
+	}
+	missing := 0
+	firstMissing := ""
+	for w := 0; w < writers; w++ {
+		for i := 0; i < perWriter; i++ {
+			k, _ := mkKey(int64(w+1)*1000000 + int64(i))
+			var present bool
+			func() {
+				defer func() { recover() }()
+				present = contains.Call([]reflect.Value{k})[0].Bool()
+			}()
+			if !present {
+				missing++
+				if firstMissing == "" {
+					firstMissing = fmt.Sprintf("writer %d put #%d", w, i)
+				}
+			}
+		}
+	}
+	total := writers * perWriter
+	size := -1
+	if sz := inst.MethodByName("Size"); sz.IsValid() {
+		size = int(sz.Call(nil)[0].Int())
+	}
+	if missing > 0 || (size >= 0 && size != total) {
+		var names []string
+		for n := range calls {
+			names = append(names, n)
+		}
+		sort.Strings(names)
+		c.Fail(tname+":update-lost-under-whole-structure-op", fmt.Sprintf("%d of %d acknowledged puts are gone (Size()=%d) after running next to whole-structure operations; first: %s", missing, total, size, firstMissing),
+			map[string]interface{}{"type": ct.name, "writers": writers, "puts_per_writer": perWriter, "whole_structure_calls": fmt.Sprint(calls), "methods": names})
+	}
+	c.Count("whole_op_runs", 1)
+	c.Count("whole_op_puts", int64(total))
+	wc := 0
+	for n, k := range calls {
+		wc += k
+		c.SetAdd("whole_structure_methods_called_concurrently", tname+"."+n)
+	}
+	c.Count("whole_structure_calls", int64(wc))
+	c.DistinctStr(fmt.Sprintf("whole|%s|%d|%d|%s", ct.name, writers, gomax, label))
+}
+
 func main() {
 	c := vlib.Start("C10")
 	isRace := c.Flavour == "race"
@@ -575,6 +752,18 @@ func main() {
 	c.Cases("stress", len(ctypes)*reps, func(i int, r *vlib.Rand) {
 		ct := ctypes[i%len(ctypes)]
 		stressOne(c, ct, r, fmt.Sprint("stress#", i), r.Range(2, 16), r.Range(2, 6), opsPer, gomaxes[(i/len(ctypes))%4])
+	})
+
+	// monitor 1b (plain flavour only: the property claims race freedom for the point operations,
+	// not for enumerator constructors and other whole-structure methods; what is judged here is
+	// the behavioural consequence — lost updates, corruption, deadlock)
+	wreps := c.N(2, 12)
+	if isRace {
+		wreps = 0
+	}
+	c.Cases("whole-ops", len(ctypes)*wreps, func(i int, r *vlib.Rand) {
+		ct := ctypes[i%len(ctypes)]
+		wholeOpStress(c, ct, r, fmt.Sprint("whole-ops#", i), r.Range(2, 6), c.N(1500, 6000), []int{4, 16, 2, 8}[(i/len(ctypes))%4])
 	})
 
 	// monitor 2
